@@ -1030,10 +1030,24 @@ class Sign(Engine):
             ht = hts[j]
             ref_digest = RS.legacy_sighash(code, tx, idx, ht)
             try:
-                h = S.SignatureHash(S.CScript(code), txo, idx, ht)
+                # every spelling of the call a signer may use for a legacy input: the plain one; with the optional
+                # amount of the spent output (which the legacy algorithm ignores); with the legacy version named
+                spelling = (int(a['nonces'][0][-2:], 16) + j) % 4
+                if spelling == 1:
+                    h = S.SignatureHash(S.CScript(code), txo, idx, ht, amount=5000 + j)
+                    ctx.fault('signature-hash-called-with-amount')
+                elif spelling == 2:
+                    h = S.SignatureHash(S.CScript(code), txo, idx, ht, amount=0, sigversion=S.SIGVERSION_BASE)
+                elif spelling == 3:
+                    h = S.SignatureHash(S.CScript(code), txo, idx, ht, None, S.SIGVERSION_BASE)
+                else:
+                    h = S.SignatureHash(S.CScript(code), txo, idx, ht)
             except ValueError:
                 h, err = S.RawSignatureHash(S.CScript(code), txo, idx, ht)
                 ctx.probe('sighash-single-without-output')
+            except Exception as e:            # noqa: BLE001
+                ctx.check(False, 'C05.accept', 'SignatureHash for a legacy input raised %s: %s' % (type(e).__name__, e), **det)
+                return
             ctx.carry()
             ctx.check(h == ref_digest, 'C05.accept', 'library signature hash differs from the consensus algorithm (hash type 0x%02x)' % ht, **det)
             nonce = int(a['nonces'][j % len(a['nonces'])], 16)
